@@ -213,6 +213,42 @@ func genC01(c *Ctx) {
 		}
 		long = append(long, ls[0])
 		c.checkBoolean(t, expr, long)
+		for _, A := range scaleAssignments(t, c.rng)[:5] {
+			c.checkBoolean(t, expr, A)
+		}
+	}
+	sz := []int{2, 17, 33, 65, 101, 130, 257}
+	if c.thorough() {
+		sz = append(sz, 400, 513, 1025)
+	}
+	for _, t := range distinctChains(sz) {
+		expr := t.render(0, c.rng)
+		c.count("distinct_chains")
+		for _, A := range scaleAssignments(t, c.rng) {
+			c.checkBoolean(t, expr, A)
+		}
+	}
+	// (f) seeded deep trees (6..12 leaves, nesting depth 3+), seeded assignments
+	nd := 1500
+	if c.thorough() {
+		nd = 15000
+	}
+	for _, t := range deepTrees(c.rng, nd) {
+		expr := t.render(c.rng.Intn(2), c.rng)
+		c.count("deep_trees")
+		ls := uniq(t.leaves())
+		for q := 0; q < 4; q++ {
+			var A []string
+			for _, l := range ls {
+				if c.rng.Intn(2) == 0 {
+					A = append(A, l)
+				}
+			}
+			if len(A) == 0 {
+				A = []string{"CC0-1.0"}
+			}
+			c.checkBoolean(t, expr, A)
+		}
 	}
 	longRef := "LicenseRef-" + strings.Repeat("a", 300)
 	c.checkBoolean(or(leaf(longRef), leaf("MIT")), longRef+" OR MIT", []string{longRef})
@@ -727,6 +763,68 @@ func genC04(c *Ctx) {
 		if r != unknown && (r == "T" || r == "F") != allSingle {
 			c.fail("Satisfies", map[string]interface{}{"expression": "ISC OR MIT", "allowed": l}, r, map[bool]string{true: "no error", false: "error"}[allSingle], "error iff some allowed entry is invalid or compound")
 		}
+	}
+	// long lists (thresholds, chunking): invalid elements at seeded positions, the last one included
+	lens := []int{15, 16, 17, 31, 32, 33, 63, 64, 65, 66, 67, 101, 127, 128, 129, 130, 255, 257}
+	if c.thorough() {
+		for n := 34; n < 300; n += 7 {
+			lens = append(lens, n)
+		}
+		lens = append(lens, 1023, 1025)
+	}
+	for _, n := range lens {
+		for variant := 0; variant < 4; variant++ {
+			var l, bad []string
+			for j := 0; j < n; j++ {
+				t := c04pool[c.rng.Intn(len(c04pool))]
+				for t.kind == 2 {
+					t = c04pool[c.rng.Intn(len(c04pool))]
+				}
+				l = append(l, t.s)
+			}
+			var pos []int
+			switch variant {
+			case 0: // none invalid
+			case 1:
+				pos = []int{n - 1}
+			case 2:
+				pos = []int{0, n / 2, n - 2, n - 1}
+			case 3:
+				for j := 0; j < 5; j++ {
+					pos = append(pos, c.rng.Intn(n))
+				}
+			}
+			for _, q := range pos {
+				l[q] = fmt.Sprintf("NOT-A-LICENSE-%d", q)
+			}
+			for _, x := range l {
+				if strings.HasPrefix(x, "NOT-A-LICENSE-") {
+					bad = append(bad, x)
+				}
+			}
+			c.count("long_lists")
+			exp := fmt.Sprintf("%d %s", map[bool]int{true: 1, false: 0}[len(bad) == 0], hxl(bad))
+			if r := c.L(l); r != unknown && r != exp {
+				c.fail("ValidateLicenses", l, r, exp, "exactly the invalid elements, in order and with multiplicity (long list)")
+			}
+		}
+	}
+	// every byte value inside / next to an identifier
+	for b := 0; b < 256; b++ {
+		for _, tpl := range sweepRefTemplates {
+			x := fmt.Sprintf(tpl, string([]byte{byte(b)}))
+			agree(x)
+			c.count("byte_sweep")
+			if v, ok := validOf(x); ok && v != isIDByte(byte(b)) {
+				c.fail("ValidateLicenses", []string{x}, fmt.Sprint(v), fmt.Sprint(isIDByte(byte(b))), "a reference name is valid iff every byte of it is a letter, a digit, '-' or '.'")
+			}
+		}
+		for _, tpl := range sweepOtherTemplates {
+			agree(fmt.Sprintf(tpl, string([]byte{byte(b)})))
+		}
+	}
+	for _, t := range distinctChains([]int{65, 101, 257}) {
+		agree(t.render(0, c.rng))
 	}
 	for _, t := range scaleTrees(c.rng, false) {
 		e := t.render(0, c.rng)
